@@ -91,7 +91,7 @@ def oracle(ctx, widen=1):
             rel = {"a": lambda: sol(mk(sc, rot=rot), cons, hkl, wl * sc),
                    "b": lambda: sol(mk(rot=rot), cons, tuple(nn * x for x in hkl), wl / nn)}
             if nm0:
-                c2 = dict(cons); c2[rng.choice(nm0)] += 360.0 * rng.choice([1, -1])
+                c2 = dict(cons); c2[rng.choice(nm0)] += 360.0 * rng.choice([1, -1, 1, -1, 2, -3])
                 rel["c"] = lambda: sol(mk(rot=rot), c2, hkl, wl)
             c3 = dict(cons)
             if "phi" in c3:
@@ -117,6 +117,34 @@ def oracle(ctx, widen=1):
                     ub1.set_miscut((0, 0, 1), eps, True)
                 return sol(ub1, c3, hkl, wl)
             rel["d-miscut"] = inplace_miscut
+
+            def inplace_route(route):
+                # the re-mounting reaches the same object through the other public routes that install an orientation:
+                # calc_ub from two (re-measured) orientation references, or set_ub with the rotated UB
+                def f():
+                    ub1 = mk(rot=rot)
+                    B = np.asarray(ub1.crystal.B, float); U = np.asarray(ub1.U, float)
+                    e = radians(eps)
+                    Rz = np.array([[cos(e), -sin(e), 0], [sin(e), cos(e), 0], [0, 0, 1]])
+                    hs = ((1.0, 0.0, 0.0), (0.0, 1.0, 1.0))
+                    with quiet():
+                        if route == "calc_ub":
+                            for h, tg in zip(hs, ("o1", "o2")):
+                                ub1.add_orientation(h, tuple(float(x) for x in U @ B @ np.array(h)), None, tg)
+                            ub1.calc_ub("o1", "o2")
+                    sol(ub1, cons, hkl, wl)
+                    str(ub1)
+                    with quiet():
+                        if route == "calc_ub":
+                            for i, (h, tg) in enumerate(zip(hs, ("o1", "o2")), 1):
+                                ub1.edit_orientation(i, h, tuple(float(x) for x in Rz @ U @ B @ np.array(h)), None, tg)
+                            ub1.calc_ub("o1", "o2")
+                        else:
+                            ub1.set_ub(Rz @ np.asarray(ub1.UB, float))
+                    return sol(ub1, c3, hkl, wl)
+                return f
+            rel["d-calcub"] = inplace_route("calc_ub")
+            rel["d-setub"] = inplace_route("set_ub")
 
             def inplace_scale(form):
                 # the same object: orientation set, queried, then the cell replaced by the scaled cell (numeric or named-system call form)
@@ -148,6 +176,8 @@ def oracle(ctx, widen=1):
                     what = {"a": f"cell and wavelength scaled by {sc}", "b": f"hkl x {nn}, wavelength / {nn}", "c": "360 deg added to a constraint value",
                             "d": f"crystal remounted by {eps} deg about phi", "d-inplace": f"crystal remounted in place (set_u on the same object after a query) by {eps} deg about phi",
                             "d-miscut": f"crystal remounted in place by set_miscut((0,0,1), {eps}, add_miscut=True)",
+                            "d-calcub": f"crystal remounted in place by {eps} deg about phi through calc_ub on re-measured orientation references (same object, after a query)",
+                            "d-setub": f"crystal remounted in place by {eps} deg about phi through set_ub(Rz.UB) (same object, after a query)",
                             "a-inplace-numeric": f"cell replaced in place by the cell scaled by {sc} (six numbers), wavelength scaled",
                             "a-inplace-named": f"cell replaced in place by the cell scaled by {sc} (system name + six numbers), wavelength scaled"}[name]
                     ctx.violation(f"mode {list(tr)} values { {k: (v if v is True else round(v, 4)) for k, v in cons.items()} } hkl={tuple(round(x, 4) for x in hkl)}: {what} changes the solutions: "
